@@ -280,6 +280,8 @@ pub open spec fn result_bool(t: TailedEvalResult, b: bool) -> bool {
     t matches TailedEvalResult::Value(Ok(v)) && v.value == XValue::Bool(b)
 }
 
+// @@INCLUDE stdx@@
+
 // @@EXTRACTED@@
 
 } // verus!
